@@ -190,6 +190,7 @@ func (w *rewriter) stmt(s GStmt) GStmt {
 		return SOpAsg{x.N, x.Op, w.expr(x.E)}
 	case SIf:
 		c := w.expr(x.C)
+		pre := w.stmts(x.Pre)
 		th, el := w.stmts(x.Then), w.stmts(x.Else)
 		if cmp, ok := c.(ECmp); ok {
 			if alt, can := flipPair[cmp.Op]; can {
@@ -201,23 +202,23 @@ func (w *rewriter) stmt(s GStmt) GStmt {
 							w.constTest = true
 						}
 						if len(el) == 0 {
-							return SIf{C: ECmp{alt, cmp.L, cmp.R}, Then: []GStmt{}, Else: th}
+							return SIf{C: ECmp{alt, cmp.L, cmp.R}, Then: []GStmt{}, Else: th, Held: x.Held, Pre: pre}
 						}
-						return SIf{C: ECmp{alt, cmp.L, cmp.R}, Then: el, Else: th}
+						return SIf{C: ECmp{alt, cmp.L, cmp.R}, Then: el, Else: th, Held: x.Held, Pre: pre}
 					}
 				case "bad-flip": // opposite test WITHOUT exchanging the branches
 					if w.hit() {
 						w.note = "negate " + cmp.Op + " -> " + alt + " keeping the branches"
-						return SIf{C: ECmp{alt, cmp.L, cmp.R}, Then: th, Else: el}
+						return SIf{C: ECmp{alt, cmp.L, cmp.R}, Then: th, Else: el, Held: x.Held, Pre: pre}
 					}
 				}
 			}
 		}
 		if w.kind == "swap-branches" && len(th) > 0 && len(el) > 0 && w.hit() {
 			w.note = "exchange then/else bodies, same test"
-			return SIf{C: c, Then: el, Else: th}
+			return SIf{C: c, Then: el, Else: th, Held: x.Held, Pre: pre}
 		}
-		return SIf{C: c, Then: th, Else: el}
+		return SIf{C: c, Then: th, Else: el, Held: x.Held, Pre: pre}
 	case SFor:
 		n := x
 		n.Start, n.Limit = w.expr(x.Start), w.expr(x.Limit)
